@@ -146,6 +146,133 @@ func zzC15Drive(objs string, rsize int) {
 	zzReach("end")
 }
 
+// zzC15Report: SimReport.Init. kinds (concrete, one per rule): 0 absolute get, 1 periodic get, 2 absolute show,
+// 3 periodic show, 4 another kind; ticks and suspended flags are solver variables. For ANY tick q and every object o: table[q] names o exactly when a non-suspended rule of that kind names o
+// at q; the reported/shown location is o's, its name is o, its type is the Extra of the first non-suspended rule
+// that registered it ("unsigned" when empty).
+func zzC15Report(objs string, kinds string, rsize int) {
+	bm := new(Bondmachine)
+	bm.Rsize = uint8(rsize)
+	m := zzPMachine(rsize, 1, 1, 1, 0, 1, "j,nop")
+	m.Program.Slocs = []string{"", ""}
+	bm.Domains = append(bm.Domains, m)
+	bm.Init()
+	bm.Add_processor(0)
+	bm.Add_input()
+	bm.Add_input()
+	bm.Add_output()
+	vm := new(VM)
+	vm.Bmach = bm
+	vm.Init()
+	names := strings.Split(objs, ",")
+	n := len(names)
+	sb := new(simbox.Simbox)
+	ticks := make([]uint64, n)
+	susp := make([]bool, n)
+	kind := make([]uint8, n)
+	extra := make([]string, n)
+	for k := 0; k < n; k++ {
+		ticks[k] = zzNondetU64("tick")
+		susp[k] = zzNondetBool("suspended")
+		kv, _ := strconv.Atoi(strings.Split(kinds, ",")[k])
+		kind[k] = uint8(kv) // concrete per configuration: the registration lists then only depend on the suspended flags
+		if k%2 == 1 {
+			extra[k] = "hex"
+		}
+		r := simbox.Rule{Tick: ticks[k], Object: names[k], Extra: extra[k], Suspended: susp[k]}
+		switch kind[k] {
+		case 0:
+			r.Timec, r.Action = simbox.TIMEC_ABS, simbox.ACTION_GET
+		case 1:
+			r.Timec, r.Action = simbox.TIMEC_REL, simbox.ACTION_GET
+		case 2:
+			r.Timec, r.Action = simbox.TIMEC_ABS, simbox.ACTION_SHOW
+		case 3:
+			r.Timec, r.Action = simbox.TIMEC_REL, simbox.ACTION_SHOW
+		default:
+			r.Timec, r.Action = simbox.TIMEC_ABS, simbox.ACTION_SET
+		}
+		sb.Rules = append(sb.Rules, r)
+	}
+	sr := new(SimReport)
+	err := sr.Init(sb, vm)
+	zzAssert("init-no-error", err == nil)
+	if err != nil {
+		return
+	}
+	q := zzNondetU64("query-tick")
+	seen := map[string]bool{}
+	for _, o := range names {
+		if seen[o] {
+			continue
+		}
+		seen[o] = true
+		loc, lerr := vm.GetElementLocation(o)
+		zzAssert("object-exists", lerr == nil)
+		for side := 0; side <= 1; side++ { // 0: reportables (kinds 0,1), 1: showables (kinds 2,3)
+			ptrs, pnames, ptypes := sr.Reportables, sr.ReportablesNames, sr.ReportablesTypes
+			if side == 1 {
+				ptrs, pnames, ptypes = sr.Showables, sr.ShowablesNames, sr.ShowablesTypes
+			}
+			ipos := -1
+			for i, p := range ptrs {
+				if p == loc {
+					ipos = i
+				}
+			}
+			registered := false
+			wantType := ""
+			for k := n - 1; k >= 0; k-- {
+				if names[k] == o && !susp[k] && int(kind[k])/2 == side && kind[k] <= 3 {
+					registered = true
+					wantType = extra[k]
+					if wantType == "" {
+						wantType = "unsigned"
+					}
+				}
+			}
+			if registered {
+				zzAssert("location-registered", ipos >= 0)
+				if ipos >= 0 {
+					zzAssert("registered-name-is-the-object", pnames[ipos] == o)
+					zzAssert("registered-type-is-the-first-rule's", ptypes[ipos] == wantType)
+				}
+			} else {
+				zzAssert("nothing-registered-without-a-rule", ipos == -1)
+			}
+			for per := 0; per <= 1; per++ {
+				kk := uint8(side*2 + per)
+				have := false
+				for k := 0; k < n; k++ {
+					if names[k] == o && !susp[k] && kind[k] == kk && ticks[k] == q {
+						have = true
+					}
+				}
+				present := false
+				if side == 0 {
+					tab := sr.AbsGet
+					if per == 1 {
+						tab = sr.PerGet
+					}
+					if row, ok := tab[q]; ok && ipos >= 0 {
+						_, present = row[ipos]
+					}
+				} else {
+					tab := sr.AbsShow
+					if per == 1 {
+						tab = sr.PerShow
+					}
+					if row, ok := tab[q]; ok && ipos >= 0 {
+						_, present = row[ipos]
+					}
+				}
+				zzAssert("table-names-the-object-exactly-when-a-rule-does", present == have)
+			}
+		}
+	}
+	zzReach("end")
+}
+
 // the value variables of the current run, read by the ImportNumber stub
 var zzC15Vals []uint64
 
@@ -159,5 +286,7 @@ func zzDispatch(name string, args []string) {
 	switch name {
 	case "zzC15Drive":
 		zzC15Drive(args[0], atoi(args[1]))
+	case "zzC15Report":
+		zzC15Report(args[0], args[1], atoi(args[2]))
 	}
 }
